@@ -6,7 +6,9 @@ import EinoV.Expected.C03
   Oracle for C03.  Two case kinds:
 
   {"kind":"tmtrace","needAll":b,"events":[…]}   replay a real taskManager trace on the model
-      (`step` with the Expected facts).  Every event must be an enabled transition and the
+      (`step` with the Expected facts).  A `finish` event may carry `"err":true` (the execution
+      ended with an error: `InterruptAndRerun`, sub-graph interrupt; `finish t true` of the
+      model).  Every event must be an enabled transition and the
       logged post-state (l.Len(), len(done), num, the task received) must equal the model's.
       Linearisation: `finish` and `refill` are logged inside the mutex section, `submit` on the
       run-loop goroutine; `recv` is logged *after* the channel receive it reports, so its
@@ -33,12 +35,16 @@ structure TEv where
   l : Int
   ch : Int
   num : Int
+  /-- finish: the execution ended with `task.err != nil` (annotated by the harness, which
+      knows which node bodies answered `InterruptAndRerun` / contain an interrupting graph) -/
+  err : Bool
   deriving Inhabited
 
 def parseEv (j : Json) : JE TEv := do
   pure { k := (← J.str j "k"), t := (← J.int j "t"),
          rest := (J.arrD j "rest").filterMap (fun a => a.getNat?.toOption),
-         l := (← J.int j "l"), ch := (← J.int j "ch"), num := (← J.int j "num") }
+         l := (← J.int j "l"), ch := (← J.int j "ch"), num := (← J.int j "num"),
+         err := J.boolD j "err" false }
 
 structure Fail where
   at_ : Nat
@@ -48,7 +54,7 @@ def cntOk (logged : Int) (model : Nat) : Bool := logged < 0 || logged == (model 
 
 def stateJson (s : St) : Json :=
   Json.mkObj [("running", J.mkNats s.running), ("l", J.mkNats s.l), ("ch", J.mkNats s.ch),
-    ("num", (s.num : Json)), ("got", J.mkNats s.got),
+    ("num", (s.num : Json)), ("got", J.mkNats s.got), ("errs", J.mkNats s.errs),
     ("coll", Json.str (match s.coll with | .idle => "idle" | .window => "window" | .inline _ => "inline"))]
 
 /-- index of the next run-loop event after `i` if only `finish` events lie in between -/
@@ -82,7 +88,7 @@ partial def replay (F : Facts) (needAll : Bool) (evs : Array TEv) (i : Nat) (s :
     | "finish" =>
       let t := e.t.toNat
       let direct : Option St :=
-        match step F needAll s (.finish t) with
+        match step F needAll s (.finish t e.err) with
         | some s1 => if cntOk e.l s1.l.length && cntOk e.ch s1.ch.length then some s1 else none
         | none => none
       match direct with
@@ -99,14 +105,14 @@ partial def replay (F : Facts) (needAll : Bool) (evs : Array TEv) (i : Nat) (s :
               let before : Option (St × Nat) :=
                 match applyRecv F needAll s evs[j]! j with
                 | .ok s0 =>
-                  match step F needAll s0 (.finish t) with
+                  match step F needAll s0 (.finish t e.err) with
                   | some s1 => if cntOk e.l s1.l.length && cntOk e.ch s1.ch.length then some (s1, j) else none
                   | none => none
                 | .error _ => none
               match before with
               | some r => some r
               | none =>
-                match step F needAll s (.finish t) with
+                match step F needAll s (.finish t e.err) with
                 | some s1 =>
                   match applyRecv F needAll s1 evs[j]! j with
                   | .ok s2 => if cntOk e.l s2.l.length && cntOk e.ch s2.ch.length then some (s2, j) else none
@@ -117,7 +123,7 @@ partial def replay (F : Facts) (needAll : Bool) (evs : Array TEv) (i : Nat) (s :
         match viaEarly with
         | some (s1, j) => replay F needAll evs (i + 1) s1 (some j) (nEarly + 1)
         | none =>
-          match step F needAll s (.finish t) with
+          match step F needAll s (.finish t e.err) with
           | none => .error ⟨i, s!"finish of execution {t}, which is not running in the model"⟩
           | some s1 => .error ⟨i, s!"post-state of finish {t}: logged l={e.l} ch={e.ch}, model l={s1.l.length} ch={s1.ch.length}"⟩
     | "recv" =>
@@ -129,7 +135,7 @@ partial def replay (F : Facts) (needAll : Bool) (evs : Array TEv) (i : Nat) (s :
         if h2 : i + 1 < evs.size then
           let e2 := evs[i + 1]
           if e2.k == "finish" then
-            match step F needAll s (.finish e2.t.toNat) with
+            match step F needAll s (.finish e2.t.toNat e2.err) with
             | some s1 =>
               match applyRecv F needAll s1 e i with
               | .ok s2 => if cntOk e2.l s2.l.length && cntOk e2.ch s2.ch.length then some s2 else none
@@ -144,7 +150,7 @@ partial def replay (F : Facts) (needAll : Bool) (evs : Array TEv) (i : Nat) (s :
             let e2 := evs[i + 1]
             if e2.k == "finish" && swapped.isSome then
               -- keep the logged order only if it explains the finish's counters
-              match step F needAll s1 (.finish e2.t.toNat) with
+              match step F needAll s1 (.finish e2.t.toNat e2.err) with
               | some s2 => if cntOk e2.l s2.l.length && cntOk e2.ch s2.ch.length then some s1 else none
               | none => none
             else some s1
@@ -166,7 +172,7 @@ partial def replay (F : Facts) (needAll : Bool) (evs : Array TEv) (i : Nat) (s :
           if h2 : i + 1 < evs.size then
             let e2 := evs[i + 1]
             if e2.k == "finish" then
-              match step F needAll s (.finish e2.t.toNat) with
+              match step F needAll s (.finish e2.t.toNat e2.err) with
               | some s1 =>
                 match applyRecv F needAll s1 e i with
                 | .ok s2 => if cntOk e2.l s2.l.length && cntOk e2.ch s2.ch.length then some s2 else none
@@ -208,6 +214,7 @@ def handleRun (c : Json) : JE Json := do
   pure <| Json.mkObj [
     ("result", J.mkArr ((gResult g).map fun p => J.mkStrs [p.1, p.2])),
     ("execs", J.mkStrs st.execs),
+    ("batches", J.mkArr ((gBatches g).map J.mkStrs)),
     ("feedsEnd", J.mkStrs (feeds.filter (· != endKey)))]
 
 /-- {"kind":"eager",…graph…,"order":[keys]}: the eager engine following the completion order
